@@ -113,6 +113,32 @@ theorem C23_min_empty (ty : ColType) (h : ty.handled = true) (vss : List (List I
     finalState minAccum minMaxNew (vss.map (Batch.ofVals ty)) = .ok minMaxNew := by
   rw [C23_min_batches ty h, he]; rfl
 
+/-! ### what happens with NaN (outside the property's order, modelled and cross-checked) -/
+
+/-- a NaN in FIRST position sticks: min (max) stays that NaN whatever follows -/
+theorem C23_nan_first (x : Nat) (t : List Nat) (hx : isNaN b32 x = true) :
+    (minMaxOf minStep (x :: t)).v = x ∧ (minMaxOf maxStep (x :: t)).v = x :=
+  ⟨foldl_step_nan_acc minStep minStep_nan t x hx, foldl_step_nan_acc maxStep maxStep_nan t x hx⟩
+
+/-- NaNs in later positions are ignored: the result is the min (max) of the non-NaN values, so the
+    result depends on where the NaN stands -/
+theorem C23_nan_later (x : Nat) (t : List Nat) :
+    minMaxOf minStep (x :: t) = minMaxOf minStep (x :: t.filter (fun y => !isNaN b32 y)) ∧
+    minMaxOf maxStep (x :: t) = minMaxOf maxStep (x :: t.filter (fun y => !isNaN b32 y)) := by
+  simp only [minMaxOf]
+  rw [foldl_step_filter_nan minStep minStep_nan t x, foldl_step_filter_nan maxStep maxStep_nan t x]
+  exact ⟨rfl, rfl⟩
+
+/-! ### the output returned by every single `Accum` call -/
+
+/-- the i-th `Accum` call returns the aggregate of the first i+1 batches (any aggregate `accum`):
+    together with the `_batches` theorems this gives the value of every intermediate output -/
+theorem C23_outputs {σ ο : Type} (accum : σ → Batch → Except String σ) (out : σ → ο)
+    (bs : List Batch) (s : σ) (os : List ο) (h : runAgg accum out s bs = .ok os) :
+    os.length = bs.length ∧
+    ∀ i, i < bs.length → ∃ si, finalState accum s (bs.take (i + 1)) = .ok si ∧ os[i]? = some (out si) :=
+  runAgg_prefix accum out bs s os h
+
 /-! ## avg -/
 
 /-- avg = (left fold of float64 `+` over the images, from +0) / float64(number of rows), for every
